@@ -11,7 +11,7 @@ from . import c02
 LEVEL = "model_checking"
 AV = {0: "ignore", 1: "add", 2: "remove", 3: "force"}
 VALS = ["ignore", "add", "remove", "force"]
-EXT = {"C": ".c", "CPP": ".cpp"}
+EXT = {"C": ".c", "CPP": ".cpp", "OC": ".m", "JAVA": ".java", "CS": ".cs"}
 BASE = ("align_assign_span=0\nalign_var_def_span=0\nalign_right_cmt_span=0\nalign_pp_define_span=0\nalign_struct_init_span=0\nalign_enum_equ_span=0\n"
         "align_nl_cont=0\ncode_width=0\nalign_typedef_span=0\nalign_func_params=false\nalign_number_right=false\nindent_with_tabs=0\n"
         "align_var_struct_span=0\nalign_var_class_span=0\nalign_mix_var_proto=false\nalign_func_proto_span=0\nalign_oc_msg_spec_span=0\n"
@@ -59,6 +59,74 @@ using T = int ( * ) ( int ) ;
 }
 
 
+SPACEY["OC"] = """#import <Foundation/Foundation.h>
+@protocol P <NSObject>
+- ( void ) run : ( int ) a with : ( NSString * ) s ;
+@optional
+@property ( nonatomic , copy ) NSString * name ;
+@end
+@interface A : NSObject < P , Q > {
+    int m ;
+    id < P > d ;
+}
++ ( instancetype ) make ;
+- ( int ) val : ( int ) a with : ( int ) b ;
+@end
+@implementation A
+@synthesize name = _name ;
+- ( int ) val : ( int ) a with : ( int ) b {
+    NSArray * arr = @[ @1 , @2 ] ; NSDictionary * d2 = @{ @"k" : @"v" } ;
+    NSString * s = [ NSString stringWithFormat : @"%d" , a ] ;
+    [ self run : a with : s ] ; [ [ A alloc ] init ] ;
+    void ( ^ blk ) ( int ) = ^ ( int x ) { m = x ; } ; blk ( 3 ) ;
+    SEL sel = @selector( val : with : ) ; BOOL ok = [ self respondsToSelector : sel ] ;
+    @try { @throw s ; } @catch ( NSException * e ) { } @finally { }
+    for ( id o in arr ) { if ( o ) { continue ; } }
+    return ok ? a : - b ;
+}
+@end
+"""
+SPACEY["JAVA"] = """package p . q ;
+import java . util . * ;
+@ SuppressWarnings ( "x" ) public class A < T extends Comparable < T > > extends B implements C , D {
+    private final int [ ] arr = new int [ ] { 1 , 2 } ; private Map < String , List < Integer > > m = new HashMap < > ( ) ;
+    public A ( int a ) { super ( a ) ; this . arr [ 0 ] = a ; }
+    @ Override public < U > U f ( U u , int ... rest ) throws E1 , E2 {
+        for ( int i = 0 ; i < rest . length ; i ++ ) { if ( i > 1 && ! ( i == 2 ) ) continue ; else break ; }
+        for ( String s : m . keySet ( ) ) { System . out . println ( s + "x" ) ; }
+        try { g ( ) ; } catch ( E1 | E2 e ) { throw e ; } finally { }
+        Runnable r = ( ) -> { g ( ) ; } ; Function < Integer , Integer > h = x -> x * 2 ; Supplier < A > sup = A :: new ;
+        synchronized ( this ) { assert u != null : "no" ; }
+        int x = rest . length > 0 ? - rest [ 0 ] : + 1 ; x <<= 2 ; x >>>= 1 ;
+        switch ( x ) { case 1 : break ; default : return u ; }
+        return ( U ) u ;
+    }
+    enum Col { R , G , B ; }
+    interface I { int ap ( int x ) ; }
+}
+"""
+SPACEY["CS"] = """using System ; using System . Collections . Generic ;
+namespace N . M {
+    [ Serializable ] public class A < T > : B , IC where T : class , new ( ) {
+        private readonly int [ ] arr = new int [ ] { 1 , 2 } ; Dictionary < string , List < int > > d = new Dictionary < string , List < int > > ( ) ;
+        public int P { get ; private set ; } public int Q { get { return q ; } set { q = value ; } } int q ;
+        public A ( int a ) : base ( a ) { this . arr [ 0 ] = a ; }
+        public delegate void H ( object s , EventArgs e ) ; public event H Ev ;
+        public T F < U > ( U u , params int [ ] rest ) where U : struct {
+            foreach ( var s in d . Keys ) { Console . WriteLine ( s + "x" ) ; }
+            for ( int i = 0 ; i < rest . Length ; i ++ ) { if ( i > 1 && ! ( i == 2 ) ) continue ; else break ; }
+            try { G ( ) ; } catch ( Exception e ) when ( e != null ) { throw ; } finally { }
+            Func < int , int > h = x => x * 2 ; Action act = ( ) => { G ( ) ; } ; int ? n = null ; int z = n ?? 0 ;
+            var o = new { X = 1 , Y = 2 } ; string t = o ? . ToString ( ) ; lock ( this ) { z ++ ; }
+            using ( var r = new R ( ) ) { z = r . V ; } unsafe { int * p = & z ; * p = 1 ; }
+            switch ( z ) { case 1 : break ; default : return default ( T ) ; }
+            return z > 0 ? new T ( ) : null ;
+        }
+    }
+}
+"""
+
+
 def iarf_sp_options(unc):
     return [o for o in cfggen.registry(unc) if o["kind"] == "iarf" and o["name"].startswith("sp_") and not cfggen.NOT_WS.match(o["name"])]
 
@@ -93,7 +161,7 @@ def _job(a):
     chunks = [c for c in pre["chunks"] if c[obs.TYPE] not in ("NEWLINE", "NL_CONT") and c[obs.TEXT] != ""]
     out = obs.decode(so)
     items = [it for it in lex.lex(out, lang) if it[0] not in ("pp(", "pp)")]
-    pos = {}
+    pos = {}       # (orig line, orig col) -> (index of first item, index of last item) of the chunk in the output
     k = 0
     ok = True
     for c in chunks:
@@ -102,15 +170,23 @@ def _job(a):
             break
         t = c[obs.TEXT]
         it = items[k]
-        if it[1] != t:
-            # the writer may re-flow comments: accept a comment item for a comment chunk, else give up on this file
-            if c[obs.TYPE].startswith("COMMENT") and it[0].startswith("cmt"):
-                pass
-            else:
-                ok = False
-                break
-        pos[(c[obs.OLINE], c[obs.OCOL])] = k
-        k += 1
+        if it[1] == t or (c[obs.TYPE].startswith("COMMENT") and it[0].startswith("cmt")):
+            pos[(c[obs.OLINE], c[obs.OCOL])] = (k, k)
+            k += 1
+            continue
+        # one chunk, several tokens of the independent lexer ('()', '[]', '@interface', 'operator ()', an ignored line)
+        want = "".join(t.split())
+        acc = ""
+        j = k
+        while j < len(items) and len(acc) < len(want) and j - k < 60:
+            acc += "".join(items[j][1].split())
+            j += 1
+        if acc == want:
+            pos[(c[obs.OLINE], c[obs.OCOL])] = (k, j - 1)
+            k = j
+            continue
+        ok = False
+        break
     if not ok:
         return [], {"rc": 0, "unmapped": True}
     seen = {}
@@ -118,11 +194,11 @@ def _job(a):
     for e in evs:
         if e.get("e") != "Space":
             continue
-        k1 = pos.get((e["l1"], e["c1"]))
-        k2 = pos.get((e["l2"], e["c2"]))
-        if k1 is None or k2 is None or k2 != k1 + 1 or e["s1"] == "" or e["s2"] == "":
+        p1 = pos.get((e["l1"], e["c1"]))
+        p2 = pos.get((e["l2"], e["c2"]))
+        if p1 is None or p2 is None or p2[0] != p1[1] + 1 or e["s1"] == "" or e["s2"] == "":
             continue
-        i1, i2 = items[k1], items[k2]
+        i1, i2 = items[p1[1]], items[p2[0]]
         outsame = i1[4] + i1[1].count("\n") == i2[4]
         gout = (i2[2] - i1[3]) if outsame else 0
         same = e["l1"] == e["l2"]
@@ -174,7 +250,7 @@ def run(ctx):
         p2 = os.path.join(tmp, "spacey2%s" % EXT[lang])
         obs.write(p2, t.replace(" ( ", "(").replace(" , ", ",").replace(" ;", ";").replace("  ", " "))
         srcs.append((p2, lang))
-    for lang in ("C", "CPP"):
+    for lang in ("C", "CPP", "OC", "JAVA", "CS"):
         p = os.path.join(tmp, "dense%s" % EXT[lang])
         obs.write(p, hazard.DENSE[lang])
         srcs.append((p, lang))
@@ -198,7 +274,7 @@ def run(ctx):
     # TLC per language (Fusion's table is per language)
     d = c02.spec_dir(ctx)
     assigns = dict(cfgs)
-    for lang in ("C", "CPP"):
+    for lang in ("C", "CPP", "OC", "JAVA", "CS"):
         le = [e for e in evs if e["lang"] == lang]
         if not le:
             continue
